@@ -14,22 +14,23 @@
 (* What the code reports is accepted and judged by the invariants: the id a call drew (IdNonZero, IdsDistinct), the   *)
 (* packet a caller took (ReplyMatches), the counters read at quiescence (NoResidue), the event times (TDeadline).     *)
 EXTENDS ClientMux, Json
-VARIABLES l, scn, qlo, qhi
+VARIABLES l, scn, qlo, qhi, want
 Trace == ndJsonDeserialize("trace.ndjson")
-tvars == <<vars, l, scn, qlo, qhi>>
+tvars == <<vars, l, scn, qlo, qhi, want>>
 Slack == 500
 NoScn == [k |-> 0, dial |-> 0, qmax |-> 0, sc |-> -1]
-TraceInit == Init /\ l = 1 /\ scn = NoScn /\ qlo = [c \in Callers |-> 0] /\ qhi = [c \in Callers |-> 0]
+TraceInit == Init /\ l = 1 /\ scn = NoScn /\ qlo = [c \in Callers |-> 0] /\ qhi = [c \in Callers |-> 0] /\ want = EmptyF
 Here == l <= Len(Trace)
 E == Trace[l]
 Timeless == {"Config", "End"}
 Synced == Here /\ (IF E.e \in Timeless THEN TRUE ELSE now = E.t)
 IsEv(e) == Here /\ E.e = e /\ now = E.t /\ l' = l + 1 /\ UNCHANGED scn
+Keep == UNCHANGED want
 Same == UNCHANGED vars
 
 \* the clock follows the recorded times (no maximal progress here: that is what the slack is for)
 TAdvance == /\ Here /\ E.e \notin Timeless /\ now < E.t /\ now' = E.t
-            /\ UNCHANGED <<msgID, pc, cid, out, st, eff, resp, queueLen, mgrInvoke, tInvoke, conn, dialer, dmode, dialT, sendQ, wire, seen, pkt, rst, rch, lookT, l, scn>>
+            /\ UNCHANGED <<msgID, pc, cid, out, st, eff, resp, queueLen, mgrInvoke, tInvoke, conn, dialer, dmode, dialT, sendQ, wire, seen, pkt, rst, rch, lookT, l, scn, want>>
 
 TConfig == /\ Here /\ E.e = "Config" /\ l' = l + 1 /\ E.k <= Cardinality(Callers)
            /\ scn' = [k |-> E.k, dial |-> E.dial, qmax |-> E.qmax, sc |-> E.sc]
@@ -39,7 +40,7 @@ TConfig == /\ Here /\ E.e = "Config" /\ l' = l + 1 /\ E.k <= Cardinality(Callers
            /\ resp' = EmptyF /\ queueLen' = 0 /\ mgrInvoke' = 0 /\ tInvoke' = 0
            /\ conn' = "open" /\ dialer' = 0 /\ dmode' = "accept" /\ dialT' = 0
            /\ sendQ' = {} /\ wire' = {} /\ seen' = EmptyF
-           /\ pkt' = <<>> /\ rst' = <<>> /\ rch' = <<>> /\ lookT' = <<>> /\ now' = 0
+           /\ pkt' = <<>> /\ rst' = <<>> /\ rch' = <<>> /\ lookT' = <<>> /\ now' = 0 /\ want' = EmptyF
 
 \* ---- trace-level steps that have no counterpart among the fine-grained actions
 \* the call reports the id it drew (genRequestID under concurrency is judged by the invariants and by the id oracle)
@@ -67,7 +68,7 @@ TPeerRecv == IsEv("PeerRecv") /\ <<E.id, E.c>> \in wire /\ PeerGet(<<E.id, E.c>>
 TPeerSend == IsEv("PeerSend") /\ E.q = Len(pkt) + 1 /\ PeerSend(E.id) /\ pkt'[E.q].tag = E.tag
 TNetRecv == IsEv("NetRecv") /\ RecvPkgBody(E.q)
 TRecvBad == IsEv("RecvBad") /\ E.q \in DOMAIN pkt /\ pkt[E.q].id = GARB /\ RecvStart(E.q)
-TRecvBegin == IsEv("RecvBegin") /\ E.q \in DOMAIN pkt /\ pkt[E.q].id = E.id /\ E.id # GARB /\ RecvStart(E.q)
+TRecvBegin == IsEv("RecvBegin") /\ E.q \in DOMAIN pkt /\ pkt[E.q].id = E.id /\ E.id # GARB /\ RecvStart(E.q) /\ want' = Put(want, E.q, E.f)
 TRecvLookup == IsEv("RecvLookup") /\ E.q \in DOMAIN rst /\ rst[E.q] = (IF E.found THEN "found" ELSE "dropped") /\ Same
 TRecvDelivered == IsEv("RecvDelivered") /\ E.q \in DOMAIN rst /\ rst[E.q] = "delivered" /\ Same
 TRecvGaveUp == IsEv("RecvGaveUp") /\ GiveUp(E.q)
@@ -81,6 +82,11 @@ TUnregistered == IsEv("Unregistered") /\ pc[E.c] = "post" /\ cid[E.c] = E.id /\ 
 TCallEnd == /\ IsEv("CallEnd") /\ pc[E.c] = "done" /\ out[E.c].k = E.k /\ out[E.c].p = E.p
             /\ (E.k = "reply" => (E.p \in DOMAIN pkt /\ pkt[E.p].id = E.rid /\ pkt[E.p].tag = E.tag))
             /\ Same
+\* the call returned although its cleanup was never reported: accepted as observed (nothing is released), judged by the
+\* accounting invariants and NoResidue
+TCallEndNoCleanup == /\ IsEv("CallEnd") /\ pc[E.c] \in {"send", "wait"} /\ E.k # "reply"
+                     /\ Finish(E.c, E.k, 0) /\ Goto(E.c, "done") /\ mgrInvoke' = mgrInvoke - 1
+                     /\ UNCHANGED <<msgID, cid, st, eff, resp, queueLen, tInvoke, conn, dialer, dmode, dialT, sendQ, wire, seen, pkt, rst, rch, lookT, now>>
 \* the harness gave up waiting for this call long after every bound (the run ends here)
 THung == IsEv("Hung") /\ InFlight(E.c) /\ Same
 TNoop == (IsEv("Dialed") \/ IsEv("ConnClosed") \/ IsEv("WriteErr") \/ IsEv("PeerClose")) /\ Same
@@ -91,7 +97,7 @@ TQuiesce == /\ IsEv("Quiesce") /\ Quiet
             /\ resp' = IF E.pend = Cardinality(DOMAIN resp) THEN resp ELSE [i \in 45000..(44999 + E.pend) |-> 1]
             /\ (IF E.tinv = 0 /\ tInvoke = 0 THEN TRUE ELSE PrintT(<<"TINV", scn.sc, E.tinv, tInvoke>>))
             /\ UNCHANGED <<msgID, pc, cid, out, st, eff, conn, dialer, dmode, dialT, sendQ, wire, seen, pkt, rst, rch, lookT, now>>
-TEnd == Here /\ E.e = "End" /\ l' = l + 1 /\ UNCHANGED <<vars, scn>>
+TEnd == Here /\ E.e = "End" /\ l' = l + 1 /\ UNCHANGED <<vars, scn, want>>
 
 \* ---- silent steps, enabled only when the next event needs them ...
 CallerNeed ==
@@ -107,29 +113,38 @@ CallerNeed ==
      \/ E.e = "Unregistered" /\ (Unreg1(c) \/ Unreg2(c))
      \/ E.e = "CallEnd" /\ Post(c)
 RecvNeed ==
-  /\ E.e \in {"RecvLookup", "RecvDelivered"} /\ E.q \in DOMAIN rst
-  /\ LET q == E.q IN
-     \/ E.e = "RecvLookup" /\ Lookup(q)
-     \/ E.e = "RecvDelivered" /\ rst[q] = "found" /\ (Deliver(q) \/ (pc[rch[q]] = "send" /\ SendOpen(rch[q])))
-\* ... or when a lookup window overlaps a register / unregister window of the same id: then both orders are explored
-Begun == {q \in DOMAIN rst : rst[q] = "begun"}
-InWin == {c \in Callers : pc[c] \in {"reg1", "reg2", "unreg1", "unreg2"}}
-Conflict == \E q \in Begun : \E c \in InWin :
-               /\ pkt[q].id = cid[c]
-               /\ (Lookup(q) \/ Reg1(c) \/ Reg2(c) \/ Unreg1(c) \/ Unreg2(c))
-TSilent == Synced /\ UNCHANGED <<l, scn>> /\ (CallerNeed \/ RecvNeed \/ Conflict)
+  /\ E.e = "RecvDelivered" /\ E.q \in DOMAIN rst
+  /\ LET q == E.q IN rst[q] = "found" /\ (Deliver(q) \/ (pc[rch[q]] = "send" /\ SendOpen(rch[q])))
+TSilent == Synced /\ UNCHANGED <<l, scn, want>> /\ (CallerNeed \/ RecvNeed)
+\* ---- the table lookup of receiver q happens somewhere between RecvBegin{q} and RecvLookup{q}, unordered against the
+\* Store / Delete of a call that is between RegBegin and Registered / UnregBegin and Unregistered.  RecvBegin carries the
+\* result reported later (want[q]: 1 found, 0 not found, 2 none reported), so the placement needs no search: the lookup is
+\* taken at the first moment at which the table agrees with the result; while it does not agree, the Store (Delete) of the
+\* call that owns the id is the only step that can make it agree and is taken as soon as that call is inside its window.
+\* These forced steps run before anything else.
+Begun == {q \in DOMAIN rst : rst[q] = "begun" /\ want[q] # 2}
+MatchNow(q) == (want[q] = 1) <=> (pkt[q].id \in DOMAIN resp)
+InWin(q) == {c \in Callers : cid[c] = pkt[q].id /\ pc[c] \in (IF want[q] = 1 THEN {"reg1", "reg2"} ELSE {"unreg1", "unreg2"})}
+Ready == {q \in Begun : MatchNow(q) \/ InWin(q) # {}}
+Forced == LET q == CHOOSE q \in Ready : \A r \in Ready : q <= r IN
+          IF MatchNow(q) THEN Lookup(q)
+          ELSE LET c == CHOOSE c \in InWin(q) : TRUE IN Reg1(c) \/ Reg2(c) \/ Unreg1(c) \/ Unreg2(c)
 
 \* bounds of ServantProxy.queueLen since the call began (the "queue full" check reads it at an unrecorded moment); an
 \* increment / decrement whose Begin event is recorded but which the model has not placed yet may already have happened
 PreReg == {"cas", "add", "pre", "sel"}
 Lo == queueLen' - Cardinality({d \in Callers : pc'[d] = "unreg1"})
 Hi == queueLen' + Cardinality({d \in Callers : pc'[d] = "reg1"})
-Win == /\ qlo' = [c \in Callers |-> IF pc'[c] \in PreReg THEN (IF pc[c] = "idle" \/ Lo < qlo[c] THEN Lo ELSE qlo[c]) ELSE qlo[c]]
-       /\ qhi' = [c \in Callers |-> IF pc'[c] \in PreReg THEN (IF pc[c] = "idle" \/ Hi > qhi[c] THEN Hi ELSE qhi[c]) ELSE qhi[c]]
+Win == IF scn'.qmax >= 100000 THEN UNCHANGED <<qlo, qhi>>      \* the queue can only be full in runs that lower ObjQueueMax
+       ELSE /\ qlo' = [c \in Callers |-> IF pc'[c] \in PreReg THEN (IF pc[c] = "idle" \/ Lo < qlo[c] THEN Lo ELSE qlo[c]) ELSE qlo[c]]
+            /\ qhi' = [c \in Callers |-> IF pc'[c] \in PreReg THEN (IF pc[c] = "idle" \/ Hi > qhi[c] THEN Hi ELSE qhi[c]) ELSE qhi[c]]
 
-TraceNext == /\ \/ TAdvance \/ TConfig \/ TCallStart \/ TRegBegin \/ TRegistered \/ TDequeued \/ TPeerRecv \/ TPeerSend \/ TNetRecv
-                \/ TRecvBad \/ TRecvBegin \/ TRecvLookup \/ TRecvDelivered \/ TRecvGaveUp \/ TUnregBegin \/ TUnregistered
-                \/ TCallEnd \/ THung \/ TNoop \/ TQuiesce \/ TEnd \/ TSilent
+Events == \/ TCallStart \/ TRegBegin \/ TRegistered \/ TDequeued \/ TPeerRecv \/ TPeerSend \/ TNetRecv
+          \/ TRecvBad \/ TRecvLookup \/ TRecvDelivered \/ TRecvGaveUp \/ TUnregBegin \/ TUnregistered
+          \/ TCallEnd \/ TCallEndNoCleanup \/ THung \/ TNoop \/ TQuiesce
+TraceNext == /\ IF Ready # {} THEN Forced /\ UNCHANGED <<l, scn, want>>
+                ELSE \/ Events /\ Keep
+                     \/ TAdvance \/ TConfig \/ TRecvBegin \/ TEnd \/ TSilent
              /\ Win
 TraceSpec == TraceInit /\ [][TraceNext]_tvars
 
